@@ -8,6 +8,7 @@ import (
 	"verif/engine/explore"
 	"verif/engine/report"
 	_ "verif/scen/mbox"
+	_ "verif/scen/teardown"
 	_ "verif/scen/wire"
 )
 
